@@ -133,6 +133,9 @@ func (le *LogEvent) Unmarshal(buf []byte, newBuf bool) (int, error) {
 		if err == nil {
 			le.Fields = field.Fields(flds)
 		}
+	} else if hdr&1 == 0 {
+		// the record carries no fields: do not keep the ones of the record this struct held before
+		le.Fields = ""
 	}
 
 	return nn, err
